@@ -8,6 +8,9 @@ Proof. reflexivity. Qed.
 (* submit() registers the item, publishes its id and only then writes the wake-up byte *)
 Lemma wake_ops_is : wake_ops = [SAddPending; SPutWorkId; SWakeup].
 Proof. reflexivity. Qed.
+(* a forced shutdown forgets the work ids of the items it drops *)
+Lemma drains_holds : forced_shutdown_forgets_the_waiting_work_ids = true.
+Proof. reflexivity. Qed.
 
 Definition b2n (b : bool) := if b then 1 else 0.
 (* a wake-up byte is still to be written by the submit() in progress *)
@@ -16,9 +19,10 @@ Definition subshape (l : list sop) (n : nat) : Prop :=
   (l = [] /\ n = 0) \/ (l = [SAddPending; SPutWorkId; SWakeup] /\ n = 0) \/ (l = [SPutWorkId; SWakeup] /\ n = 1) \/ (l = [SWakeup] /\ n = 0).
 
 Definition WInv (s : ws) : Prop :=
-  nd s = results s + b2n (have s) /\
+  (ph s = MExit \/ nd s = results s + b2n (have s)) /\      (* results of dropped items may remain in the pipe once the manager has left *)
   subshape (sub s) (nt s) /\
   (shut s = true -> sub s = []) /\
+  stale s = 0 /\ (kill s = true -> shut s = true) /\
   match ph s with
   | MAdd => have s = false /\ (shut s = true -> 0 < wake s + results s + nr s)
   | MWait => have s = false /\
@@ -26,11 +30,12 @@ Definition WInv (s : ws) : Prop :=
              (shut s = true -> 0 < wake s + results s + nr s)        (* while shutting down the manager is never parked for good *)
   | MCheck => have s = false
   | MExit => have s = false /\ in_table s = 0 /\ shut s = true
+  | MCrashed => False
   | _ => True
   end.
 
 Lemma winv0 : WInv ws0.
-Proof. unfold WInv, ws0, subshape; simpl. repeat split; auto; try discriminate; lia. Qed.
+Proof. unfold WInv, ws0, subshape; simpl. repeat split; auto; try discriminate; try lia. Qed.
 
 Ltac shape := unfold subshape; first [left; split; [reflexivity|lia] | right; left; split; [reflexivity|lia]
                                        | right; right; left; split; [reflexivity|lia] | right; right; right; split; [reflexivity|lia]].
@@ -38,11 +43,11 @@ Ltac eqbs := repeat match goal with
                     | H : Nat.eqb _ _ = true |- _ => apply Nat.eqb_eq in H
                     | H : Nat.eqb _ _ = false |- _ => apply Nat.eqb_neq in H end.
 Ltac fin := eqbs; unfold WInv, in_table, upd_sub, wahead, b2n in *; simpl in *;
-            repeat match goal with H : _ /\ _ |- _ => destruct H end; subst;
+            repeat match goal with H : _ /\ _ |- _ => destruct H | H : _ \/ _ |- _ => destruct H end; subst; try discriminate;
             repeat match goal with |- context [if ?b then _ else _] => destruct b end;
             repeat match goal with |- _ /\ _ => split end;
-            try shape; intros; simpl in *; try discriminate; try congruence; try lia.
-Ltac proj := cbn [Wake.np Wake.nc Wake.nr Wake.nd Wake.wake Wake.results Wake.have Wake.shut Wake.ph Wake.nt Wake.sub] in *.
+            try shape; try (left; reflexivity); try (right; simpl in *; lia); intros; simpl in *; try discriminate; try congruence; try lia.
+Ltac proj := cbn [Wake.np Wake.nc Wake.nr Wake.nd Wake.wake Wake.results Wake.have Wake.shut Wake.ph Wake.nt Wake.sub Wake.kill Wake.stale] in *.
 Ltac go := repeat (proj; cbv zeta; unfold in_table, upd_sub; proj;
                    match goal with
                    | |- WInv (if ?b then _ else _) => destruct b eqn:?
@@ -51,11 +56,12 @@ Ltac go := repeat (proj; cbv zeta; unfold in_table, upd_sub; proj;
 
 Lemma step_winv s e : WInv s -> WInv (step s e).
 Proof.
-  unfold step. rewrite rechecks_holds, wake_ops_is. intros I.
-  destruct s as [nt np nc nr nd wake results have shut ph sub].
-  pose proof I as (D & SS & SH & P). proj.
+  unfold step. rewrite rechecks_holds, drains_holds, wake_ops_is. intros I.
+  destruct s as [nt np nc nr nd wake results have shut ph sub kill stale].
+  pose proof I as (D & SS & SH & ST & KS & P). proj. subst stale.
   destruct SS as [[-> ->]|[[-> ->]|[[-> ->]|[-> ->]]]];
   (destruct shut; [try (specialize (SH eq_refl); discriminate)|]);
+  (destruct kill; [try (specialize (KS eq_refl); discriminate)|]);
   destruct e; unfold step_with; go; first [exact I | try destruct ph; fin].
 Qed.
 
@@ -68,10 +74,10 @@ Proof. unfold run. induction es as [|e es IH]; intros s I; simpl; [exact I|]. ap
 Theorem no_wake_up_is_lost es : let s := run es ws0 in asleep_for_good s = true -> shut s = false /\ in_table s = 0.
 Proof.
   intros s A. pose proof (run_winv es ws0 winv0) as I. fold s in I. clearbody s.
-  destruct s as [nt np nc nr nd wake results have shut ph sub].
+  destruct s as [nt np nc nr nd wake results have shut ph sub kill stale].
   unfold asleep_for_good in A. proj. destruct ph; try discriminate. destruct sub; [|discriminate].
   apply andb_true_iff in A. destruct A as [A1 A2].
-  destruct I as (D & SS & SH & P). proj. destruct SS as [[_ ->]|[[E _]|[[E _]|[E _]]]]; try discriminate.
+  destruct I as (D & SS & SH & ST & KS & P). proj. destruct SS as [[_ ->]|[[E _]|[[E _]|[E _]]]]; try discriminate.
   destruct shut; fin.
 Qed.
 
@@ -79,7 +85,7 @@ Qed.
 Theorem manager_leaves_an_empty_table es : let s := run es ws0 in ph s = MExit -> in_table s = 0 /\ shut s = true.
 Proof.
   intros s E. pose proof (run_winv es ws0 winv0) as I. fold s in I. clearbody s.
-  destruct s as [nt np nc nr nd wake results have shut ph sub]. simpl in E. subst ph. fin.
+  destruct s as [nt np nc nr nd wake results have shut ph sub kill stale]. simpl in E. subst ph. fin.
 Qed.
 
 (* while it is there, a manager that was asked to stop always has a step to make once the dispatched jobs have finished *)
@@ -87,19 +93,28 @@ Theorem shutting_down_manager_is_never_stuck es :
   let s := run es ws0 in shut s = true -> ph s <> MExit -> nr s = 0 -> step s Mgr <> s.
 Proof.
   intros s Sh P R. pose proof (run_winv es ws0 winv0) as I. fold s in I. clearbody s.
-  unfold step. rewrite rechecks_holds.
-  destruct s as [nt np nc nr nd wake results have shut ph sub]. simpl in Sh, P, R. subst shut nr.
+  unfold step. rewrite rechecks_holds, drains_holds.
+  destruct s as [nt np nc nr nd wake results have shut ph sub kill stale]. simpl in Sh, P, R. subst shut nr.
+  destruct I as (D & SS & SH & ST & KS & PP). proj. subst stale.
   unfold step_with; proj.
-  destruct ph; try congruence; try discriminate.
-  - destruct (Nat.eqb (wake + results) 0) eqn:Z.
-    + fin.
-    + destruct results; discriminate.
-  - unfold in_table; proj. destruct (Nat.eqb (nt + 0 + 0 + (0 + np) + nd) 0); discriminate.
+  destruct ph; try congruence; try contradiction; cbv zeta; unfold in_table; proj; simpl.
+  all: repeat match goal with
+              | |- context [if ?b then _ else _] => destruct b eqn:?
+              | |- context [match ?r with 0 => _ | S _ => _ end] => destruct r
+              end.
+  all: try (intros X; inversion X; fail).
+  all: fin.
+Qed.
+
+(* the manager thread never dies of a stale work id, forced shutdowns included *)
+Theorem manager_never_crashes es : ph (run es ws0) <> MCrashed.
+Proof.
+  pose proof (run_winv es ws0 winv0) as (_ & _ & _ & _ & _ & P). intros E. rewrite E in P. exact P.
 Qed.
 
 (* H11: without the re-check the manager can be parked for ever while the pool is shutting down *)
 Example h11_lost_wake_up :
-  let s := fold_left (step_with false wake_ops) [Mgr; SubmitBegin; SubStep; SubStep; SubStep; Cancel; Shutdown; Mgr; Mgr; Mgr; Mgr; Mgr] ws0 in
+  let s := fold_left (step_with false true wake_ops) [Mgr; SubmitBegin; SubStep; SubStep; SubStep; Cancel; Shutdown; Mgr; Mgr; Mgr; Mgr; Mgr] ws0 in
   asleep_for_good s = true /\ shut s = true /\ in_table s = 0.
 Proof. vm_compute. auto. Qed.
 Example h11_fixed :
@@ -107,6 +122,14 @@ Example h11_fixed :
 Proof. vm_compute. reflexivity. Qed.
 (* writing the wake-up byte before the work id is published loses the job: the manager wakes, clears the pipe, finds nothing, sleeps *)
 Example wake_up_before_publishing_loses_the_job :
-  let s := fold_left (step_with true [SWakeup; SAddPending; SPutWorkId]) [Mgr; SubmitBegin; SubStep; Mgr; Mgr; Mgr; Mgr; Mgr; SubStep; SubStep] ws0 in
+  let s := fold_left (step_with true true [SWakeup; SAddPending; SPutWorkId]) [Mgr; SubmitBegin; SubStep; Mgr; Mgr; Mgr; Mgr; Mgr; SubStep; SubStep] ws0 in
   asleep_for_good s = true /\ in_table s = 1.
 Proof. vm_compute. auto. Qed.
+(* the first version of the H11 repair: re-checking the work ids after a forced shutdown dropped the items but kept their ids *)
+Example recheck_without_forgetting_the_ids_kills_the_manager :
+  let s := fold_left (step_with true false wake_ops) [Mgr; SubmitBegin; SubStep; SubStep; SubStep; ShutdownKill; Mgr; Mgr; Mgr; Mgr] ws0 in
+  ph s = MCrashed.
+Proof. vm_compute. reflexivity. Qed.
+Example forced_shutdown_with_a_waiting_id :
+  let s := run [Mgr; SubmitBegin; SubStep; SubStep; SubStep; ShutdownKill; Mgr; Mgr; Mgr; Mgr] ws0 in ph s = MExit /\ in_table s = 0.
+Proof. vm_compute. split; reflexivity. Qed.
